@@ -530,3 +530,9 @@ def starved(merged, tier):
 def precheck():
     from vlib.calibrate import calibrate
     return calibrate()
+
+
+def shard_env(i, n):
+    """a quarter of the shards run the daemon code with DEBUG set in its environment (circus then wraps its methods
+    in tracing decorators at import time)"""
+    return {'DEBUG': '1'} if i % 4 == 3 else None
